@@ -359,6 +359,285 @@ def profile_struct(p):
 
 # ---------------------------------------------------------------------------------------------------
 
+# ---------------------------------------------------------------------------------------------------
+# C15 / C10(ii): well-formed files.  A structure is written down independently of the reader; renderings of it contain
+# symbolic tokens (number vs nickname per candidate reference, numerals of symbolic multipliers, a symbolic comment
+# token in a gap); the parsed profile must equal the structure.
+
+COMMENT_TOKENS = ['/*x*/', '/*/', '/**/', '#x', '#', '#"', '/*"*/', '#/*']
+
+STRUCTS = {
+    'A': dict(n=3, seats=2, names=['Ann A', 'Bob', 'Cy#c'], title='The /* title', nicks=None, tie=None, withdrawn=[], wd_style='-n',
+              undeclared=[], source=None, comment=None, droop=[], ids=False,
+              ballots=[[[1], [2]], [[2], [3]], [[3], [2], [1]]]),
+    'B': dict(n=4, seats=2, names=['A', 'B "b', 'C', 'D'], title='T', nicks=['a', 'b', 'c', 'd'], tie=[3, 1, 4, 2], withdrawn=[2], wd_style='-n',
+              undeclared=[4], source='src x', comment='cmt', droop=[], ids=False,
+              ballots=[[[1], [3]], [[2]], [[2], [4], [1]], [[1, 3], [2], [4]]]),
+    'C': dict(n=3, seats=1, names=['A', 'B', 'C'], title='T t', nicks=None, tie=[2, 3, 1], withdrawn=[1, 3], wd_style='[withdrawn', undeclared=[],
+              source='s', comment=None, droop=['rule=meek', 'arithmetic=fixed'], ids=False,
+              ballots=[[[2]], [[1], [2]], [[3]], [[3, 1], [2]]]),
+    'D': dict(n=3, seats=2, names=['A', 'B', 'C'], title='T', nicks=['x', 'y', 'z'], tie=None, withdrawn=[], wd_style='-n', undeclared=[], source=None,
+              comment=None, droop=[], ids=True, ballots=[[[1], [2]], [[2]], [[3], [1], [2]]]),
+    'E': dict(n=4, seats=3, names=['A', 'B', 'C', 'D'], title='T', nicks=None, tie=[4, 3, 2, 1], withdrawn=[4], wd_style='[withdrawn', undeclared=[1, 2],
+              source=None, comment=None, droop=[], ids=False, ballots=[[[4], [1]], [[1, 4], [2, 3]], [[2], [4], [3]], [[4, 4]]]),
+}
+STRUCTS['E']['ballots'][3] = [[4], [4]] and [[4]]      # a ballot naming only the withdrawn candidate
+
+
+def expected_structure(T, mvals):
+    "what the file denotes (independent of the reader).  mvals: multipliers (ints)"
+    n = T['n']
+    wd = set(T['withdrawn'])
+    ballots, ballots_eq = [], []
+    nb = 0
+    for m, rk in zip(mvals, T['ballots']):
+        groups = [[c for c in g if c not in wd] for g in rk]
+        groups = [g for g in groups if g]
+        if not groups:
+            continue
+        nb += m
+        if any(len(g) > 1 for g in groups):
+            ballots_eq.append([m, groups])
+        else:
+            ballots.append([m, [g[0] for g in groups]])
+    tie = T['tie']
+    tie_ranks = [tie.index(c) + 1 for c in range(1, n + 1)] if tie else list(range(1, n + 1))
+    return dict(title=T['title'], source=T['source'], comment=T['comment'], nSeats=T['seats'], nCand=n, nBallots=nb,
+                eligible=[c for c in range(1, n + 1) if c not in wd], withdrawn=sorted(wd), undeclared=sorted(T['undeclared']),
+                names=list(T['names']), order=list(range(1, n + 1)), tie=tie_ranks,
+                nick=list(T['nicks']) if T['nicks'] else [str(c) for c in range(1, n + 1)], options=list(T['droop']),
+                ballots=ballots, ballots_equal=ballots_eq)
+
+
+class RefTok(SymTok):
+    "a candidate reference: the candidate's number or its nickname (symbolic choice)"
+
+    def __init__(self, name, cid, nick):
+        SymTok.__init__(self, name)
+        for t in (str(cid), nick):
+            if t not in ALPHABET:
+                ALPHABET.append(t)
+        self.allowed = [ALPHABET.index(str(cid)), ALPHABET.index(nick)]
+
+
+class CommentTok(SymTok):
+    def __init__(self, name):
+        SymTok.__init__(self, name)
+        for t in COMMENT_TOKENS:
+            if t not in ALPHABET:
+                ALPHABET.append(t)
+        self.allowed = [ALPHABET.index(t) for t in COMMENT_TOKENS]
+
+
+def render_struct(T, gap_positions, symrefs=None):
+    """token lines of a rendering of T with symbolic parts; returns (lines, syms, mults).
+    symrefs: indices of the candidate references that are symbolic (number or nickname); the others alternate"""
+    syms, mults = [], []
+    cnt = [0]
+
+    def ref(c):
+        if T['nicks']:
+            cnt[0] += 1
+            if symrefs is None or cnt[0] in symrefs:
+                r = RefTok('r%d' % cnt[0], c, T['nicks'][c - 1])
+                syms.append(r)
+                return r
+            return str(c) if cnt[0] % 2 else T['nicks'][c - 1]
+        return str(c)
+
+    def quoted(s):
+        toks = ('"%s"' % s).split()
+        return toks
+    lines = [[str(T['n']), str(T['seats'])]]
+    if T['nicks']:
+        ns = list(T['nicks'])
+        lines.append(['[nick'] + ns[:-1] + [ns[-1] + ']'])
+    if T['tie']:
+        lines.append(['[tie'] + [ref(c) for c in T['tie'][:-1]] + [ref(T['tie'][-1]), ']'])
+    if T['withdrawn']:
+        if T['wd_style'] == '-n':
+            lines.append(['-%d' % c for c in T['withdrawn']])
+        else:
+            lines.append(['[withdrawn'] + [ref(c) for c in T['withdrawn']] + [']'])
+    if T['undeclared']:
+        lines.append(['[undeclared'] + [ref(c) for c in T['undeclared']] + [']'])
+    if T['droop']:
+        lines.append(['[droop'] + T['droop'][:-1] + [T['droop'][-1] + ']'])
+    for i, rk in enumerate(T['ballots']):
+        if T['ids']:
+            head = ['(id', '%d)' % i] if i % 2 else ['(b%d)' % i]
+            mults.append(1)
+        else:
+            m = NumTok('m%d' % i)
+            syms.append(m)
+            mults.append(m)
+            head = [m]
+        body = []
+        for g in rk:
+            if len(g) == 1:
+                body.append(ref(g[0]))
+            else:
+                body.append('='.join(str(c) for c in g))       # equal ranks are written with numbers
+        lines.append(head + body + ['0'])
+    lines.append(['0'])
+    for nm in T['names']:
+        lines.append(quoted(nm))
+    lines.append(quoted(T['title']))
+    if T['source'] is not None:
+        lines.append(quoted(T['source']))
+    if T['comment'] is not None:
+        lines.append(quoted(T['comment']))
+    # gaps: a symbolic comment token appended at the end of the chosen lines (so that '#...' forms stay harmless)
+    for k, gp in enumerate(gap_positions):
+        c = CommentTok('g%d' % k)
+        syms.append(c)
+        lines[gp] = lines[gp] + [c]
+    return lines, syms, mults
+
+
+def struct_nrefs(T):
+    lines, syms, _ = render_struct(T, [])
+    return len([x for x in syms if isinstance(x, RefTok)])
+
+
+def struct_gaps(T):
+    "line indices after which a comment token may be appended without entering a quoted string"
+    lines, _, _ = render_struct(T, [])
+    out = []
+    for i, l in enumerate(lines):
+        q = any(isinstance(t, str) and t.startswith('"') for t in l)
+        multi = len(l) > 1 and q
+        # a quoted name spanning several tokens is closed at the end of its line: appending after it is fine
+        out.append(i)
+    return out
+
+
+def run_wellformed(spec, res, pristine, budget):
+    from droop.profile import ElectionProfile, ElectionProfileError
+    T = STRUCTS[spec['struct']]
+    outcome = 'complete'
+    for gaps in spec['gapsets']:
+        lines, syms, mults = render_struct(T, gaps, spec.get('symrefs'))
+        eng = core.Engine(timeout_ms=20000, max_branches=4000)
+        numtoks = [m for m in mults if isinstance(m, NumTok)]
+        seen = {}
+
+        def pre(e):
+            for s_ in syms:
+                if isinstance(s_, NumTok):
+                    e.assume(z3.And(s_.m >= 1, s_.m <= 10 ** 9))
+                else:
+                    e.assume(z3.Or([s_.idx == j for j in s_.allowed]))
+            # well-formed: enough ballots for the eligible candidates (the reader's own validity rule)
+            wd = set(T['withdrawn'])
+            kept = [m for m, rk in zip(mults, T['ballots']) if any(c not in wd for g in rk for c in g)]
+            tot = z3.Sum([lz(SymInt(m.m)) if isinstance(m, NumTok) else z3.IntVal(m) for m in kept] + [z3.IntVal(0)])
+            e.assume(tot >= T['n'] - len(wd))
+
+        def violation(e, key, cond=None):
+            if seen.get(key, 0) >= 1:
+                return
+            seen[key] = 1
+            if cond is not None:
+                if not e.check(cond):
+                    return
+                m = e.solver.model()
+            else:
+                m = e.model()
+            text = render(lines, m)
+            mv = [int(mm.render(m)) if isinstance(mm, NumTok) else mm for mm in mults]
+            kw = dict(struct=spec['struct'], text=text, mvals=mv)
+            rep = pristine.ask(dict(kind='call', module='harness.tokrun', function='wellformed_replay', kwargs=kw))
+            item = dict(key=key + ' struct=%s' % spec['struct'], input=kw, replay=rep, replay_module='harness.tokrun',
+                        replay_function='wellformed_replay', replay_kwargs=kw)
+            if rep.get('violated'):
+                res['violations'].append(item)
+            else:
+                res['harness_errors'].append(dict(why='well-formed counterexample does not reproduce: %s %r -> %s' % (key, text, rep)))
+
+        def body(e):
+            try:
+                p = ElectionProfile(data=Blob(lines))
+            except ElectionProfileError:
+                violation(e, 'well-formed-file-rejected')
+                return
+            except core.PathAbort:
+                raise
+            except core.HarnessError:
+                raise
+            except Exception as ex:     # noqa
+                violation(e, 'reader-crashed:%s' % type(ex).__name__)
+                return
+            res['reach']['layout-compared'] = res['reach'].get('layout-compared', 0) + 1
+            res['reach']['accepted'] = res['reach'].get('accepted', 0) + 1
+            exp = expected_structure(T, [SymInt(m.m) if isinstance(m, NumTok) else m for m in mults])
+            got = profile_struct_sym(p)
+            conds = []
+            for k in exp:
+                if k in ('nBallots', 'ballots', 'ballots_equal'):
+                    continue
+                if got[k] != exp[k]:
+                    violation(e, 'attribute-differs:%s' % k)
+                    return
+            for kind in ('ballots', 'ballots_equal'):
+                if len(got[kind]) != len(exp[kind]) or [b[1] for b in got[kind]] != [b[1] for b in exp[kind]]:
+                    violation(e, 'attribute-differs:%s' % kind)
+                    return
+                for (gm_, _), (em_, _) in zip(got[kind], exp[kind]):
+                    conds.append(lz(gm_) != lz(em_))
+            conds.append(lz(got['nBallots']) != lz(exp['nBallots']))
+            c_ = z3.simplify(z3.Or(*conds))
+            if not z3.is_false(c_):
+                violation(e, 'multiplier-or-ballot-total-differs', c_)
+            bad = profile_invariants(p)
+            if bad:
+                violation(e, 'accepted-profile-invariant:%s' % ','.join(bad))
+            if res['_validate']:
+                m = e.models[-1] if e.models else e.model()
+                text = render(lines, m)
+                mv = [int(mm.render(m)) if isinstance(mm, NumTok) else mm for mm in mults]
+                rep = pristine.ask(dict(kind='call', module='harness.tokrun', function='wellformed_replay', kwargs=dict(struct=spec['struct'], text=text, mvals=mv)))
+                res['validated'] += 1
+                if rep.get('violated') or 'error' in rep:
+                    res['harness_errors'].append(dict(why='pristine reader disagrees on %r: %s' % (text, rep)))
+                if len(res['samples']) < 3:
+                    res['samples'].append(dict(text=text, struct=spec['struct']))
+        o = eng.explore(body, pre, deadline=time.time() + budget)
+        if o != 'complete':
+            outcome = o
+        for k, v in eng.stats.items():
+            res['stats'][k] = res['stats'].get(k, 0) + v
+        for k, v in (getattr(eng, 'path_status', {}) or {}).items():
+            res['path_status'][k] = res['path_status'].get(k, 0) + v
+    return outcome
+
+
+def profile_struct_sym(p):
+    return dict(title=p.title, source=p.source, comment=p.comment, nSeats=p.nSeats, nCand=p.nCand, nBallots=p.nBallots,
+                eligible=sorted(p.eligible), withdrawn=sorted(p.withdrawn), undeclared=sorted(p.undeclared),
+                names=[p.candidateName[c] for c in sorted(p.candidateName)], order=[p.candidateOrder[c] for c in sorted(p.candidateOrder)],
+                tie=[p.tieOrder[c] for c in sorted(p.tieOrder)], nick=[p.nickName[c] for c in sorted(p.nickName)], options=list(p.options),
+                ballots=[[bl.multiplier, list(bl.ranking)] for bl in p.ballotLines],
+                ballots_equal=[[bl.multiplier, [list(r) for r in bl.ranking]] for bl in p.ballotLinesEqual])
+
+
+def wellformed_replay(struct, text, mvals):
+    "pristine side: parse the text and compare with the structure it denotes"
+    from droop.profile import ElectionProfile, ElectionProfileError
+    T = STRUCTS[struct]
+    exp = expected_structure(T, mvals)
+    try:
+        p = ElectionProfile(data=text)
+    except ElectionProfileError as ex:
+        return dict(violated=True, detail='rejected: %s' % ex)
+    except Exception as ex:     # noqa
+        return dict(violated=True, detail='crash: %s: %s' % (type(ex).__name__, ex))
+    got = profile_struct(p)
+    diffs = [k for k in exp if got.get(k) != exp[k]]
+    bad = profile_invariants(p)
+    return dict(violated=bool(diffs or bad), detail=dict(differs=diffs, invariants=bad, got={k: got[k] for k in diffs}, expected={k: exp[k] for k in diffs}))
+
+
 def explore_tokens(lines, syms, res, pristine, budget, extra_pre=None, tag=''):
     "lines: list of lists of tokens (str / SymTok / NumTok).  Explore the reader + constructor on them."
     from droop.profile import ElectionProfile
@@ -484,6 +763,8 @@ def run_job(spec):
                 o = explore_tokens(relines(tmpl, toks), [s1, s2], res, pristine, budget)
                 if o != 'complete':
                     outcome = o
+        elif mode == 'wellformed':
+            outcome = run_wellformed(spec, res, pristine, budget)
         elif mode == 'array':
             # the compact ranking array must be able to hold every candidate id: symbolic candidate count
             import droop.profile as pm
